@@ -1,8 +1,11 @@
 #!/bin/sh
 # thorough tier: the property's rule set on three more GOOS/GOARCH
 # configurations (a build-tagged file cannot hide a variant of an anchored
-# function), one process per configuration, then on the host configuration
-# (which writes the evidence and records the other runs).
+# function), one process per configuration; then the property's seeded
+# mutants, each on its own scratch copy (reported, never part of the exit
+# status: on an edited tree a patch may not apply, which says nothing about the
+# property); then the host configuration, which writes the evidence and
+# records the other runs.
 set -u
 HERE=$(cd "$(dirname "$0")" && pwd)
 PROP=$1
@@ -13,8 +16,12 @@ trap 'rm -f "$TMPF"' EXIT
 for cfg in linux/386 windows/amd64 darwin/arm64; do
   os=${cfg%/*}; arch=${cfg#*/}
   out=$("$HERE/bin/nechk" -property "$PROP" -tier thorough -repo "$REPO" -verif "$HERE" -goos "$os" -goarch "$arch" -no-evidence) || rc=1
-  echo "$out" | grep -E '^(VIOLATION|KNOWN-FINDING|  (VIOLATED|UNDECIDED))' 
+  echo "$out" | grep -E '^(VIOLATION|  (VIOLATED|UNDECIDED))'
   echo "$cfg: $(echo "$out" | grep -E "^$PROP tier=")" >> "$TMPF"
 done
+if [ -d "$HERE/mutants/$PROP" ] && [ "$REPO" = "/repo" ]; then
+  python3 "$HERE/mut.py" run "$PROP" 2>/dev/null | grep -E "^$PROP " | sed 's/^/mutant: /' >> "$TMPF"
+fi
+grep -c '^mutant: ' "$TMPF" | sed 's/^/mutants run: /'
 "$HERE/bin/nechk" -property "$PROP" -tier thorough -repo "$REPO" -verif "$HERE" -extra-file "$TMPF" || rc=1
 exit $rc
